@@ -133,6 +133,6 @@ def run_task(task, seed, acc):
 
     def fn(tup):
         t, rows, sseed = tup
-        one({"term": to_json(t), "rows": rows, "style_seed": sseed})
+        one({"term": to_json(t), "rows": semcheck.confuse_rows(t, rows, sseed), "style_seed": sseed})
 
     hyp_run(strat, fn, task["n"], seed * 1000 + task["shard"])
